@@ -3,6 +3,7 @@
   `pubJudge` accepts the model's trace on every event sequence.
 -/
 import NngModel.Proofs.PubSim
+import NngModel.Generated.C05
 namespace Nng.Pub
 open Nng Nng.Proto Nng.PubSubSpec
 
